@@ -168,9 +168,16 @@ def side_case(seed):
         elif clause == 'monotone':
             x0 = gen_tt(rng, dims, [1] * order, feasible_ranks([min(a, b) for a, b in zip(rranks(rng, order, 2), max_ranks(dims))], dims), cplx, 'float')
             sig = float(w[-1]) + 0.5
-            vals = [evp.als(A, x0, repeats=r, solver=solver, sigma=sig)[0] for r in (1, 2, 3)]
+            reps = (1, 2, 3)
+            if rng.random() < 0.5 and n > 2:
+                # an interior target with solver 'eig': the per-sweep Ritz values oscillate, the reported one is the best so far
+                sig = float(0.5 * (w[n // 2 - 1] + w[n // 2])) + 1e-3
+                solver = 'eig'
+                reps = (1, 2, 3, 4, 5)
+                desc['interior_sigma'] = True
+            vals = [evp.als(A, x0, repeats=r, solver=solver, sigma=sig, conv_eps=0)[0] for r in reps]
             desc['values'] = [float(v_) for v_ in vals]
-            if abs(vals[1] - sig) > abs(vals[0] - sig) + tol or abs(vals[2] - sig) > abs(vals[1] - sig) + tol:
+            if any(abs(vals[i_ + 1] - sig) > abs(vals[i_] - sig) + tol for i_ in range(len(vals) - 1)):
                 return 'more sweeps moved the reported eigenvalue away from the target: %s (sigma %.6g)' % (vals, sig), desc
         else:
             # inverse power iteration from a maximal-rank guess
